@@ -139,7 +139,7 @@ def jobs(tier):
     out.append({"program": prog(3, [fixed("a", 2), fixed("b", 2), fixed("c", 2), cumul("c1", 2), cumul("c2", 2)] + [req(t, c) for t in "abc" for c in ("c1", "c2")]),
                 "families": fam, "family": "two-cumulative-on-one-task"})
     out.append({"program": prog(3, [fixed("a", 2), fixed("b", 2), fixed("c", 1), cumul("c1", 2), worker("w1"), worker("w2"), select("s1", ["w1", "w2"], 1, "exact"),
-                                    req("a", "c1"), req("a", "s1"), req("b", "c1"), req("b", "s1"), req("c", "c1")]),
+                                    req("a", "c1"), req("a", "s1"), req("b", "c1"), req("b", "w1"), req("c", "c1")]),
                 "families": fam, "family": "selection-and-cumulative-on-one-task"})
     for wa in (2, 3):
         out.append({"program": prog(H, [fixed("a", 2, work_amount=wa), worker("w1", productivity=1), req("a", "w1")]), "families": fam, "family": "work"})
